@@ -171,17 +171,14 @@ def run(ctx):
         lp = forall_loop(ctx, p3, "LOOPDOM", "G28:share-verified-per-sender", src, [("SecretShare.verify()?", chk)],
                          require_fail_err=False)
         if lp is not None:
-            it = lp["iter_term"]
-            item = lambda t: t[0] == "some" and is_call(t[1], name="next") and t[1][2][0] == it
-            m = chk(item)
-            edges = {e for (e, fa) in v.facts if m(fa) == "pass"}
-            adds = set()
-            for (bb, t, ci) in p3.calls():
-                if ci and ci.get("name") == "add" and bb in lp["body"]:
-                    a = v.call_args(bb)
-                    if any(mentions(x, lambda s: fld(tfield(item, 1), "signing_share")(s)) for x in a):
-                        adds.add(bb)
-            ctx.check(bool(adds) and not sep(p3, edges, adds), "LOOPDOM", p3.key, "G28:accumulate-after-verify",
+            # from here on everything is read in the element context: the loop body of part3, the per-element closure of a
+            # try_fold / map, or either of them inside a helper
+            item = lp["item"]
+            v = lp["view"]
+            p3e = lp["fn"]
+            takes_share = lambda ci, a: bool(ci) and ci.get("name") == "add" and \
+                any(mentions(x, tfield(item, 1)) for x in a)
+            ctx.check(used_after_check(lp, takes_share), "LOOPDOM", p3.key, "G28:accumulate-after-verify",
                       "a round-two share is added to the signing share without (or before) its verification against "
                       "the same sender's commitment and the recipient's own identifier", p3.loc)
             # culprit = the loop's sender: wherever the share check's failure is turned into the returned error (a map_err
@@ -200,7 +197,7 @@ def run(ctx):
                         sub = {1: ("agg", "tuple", None, None, tuple((str(n), val) for n, val in enumerate(c[2])))}
                         ct = TermCx(P, cf, sub, 1).local(0)
                         cands.append((ct[2] if ct[0] == "phi" else (ct,), lambda x: x == ("arg", 2)))
-                elif X[0] == "call" and X[1] in P.fns and P.fns[X[1]].has_body and X[1] != p3.key and \
+                elif X[0] == "call" and X[1] in P.fns and P.fns[X[1]].has_body and X[1] != p3e.key and \
                         any(share_check(item, arg(1), arg(2))(lf[1]) for lf in lifted_facts(P, P.fns[X[1]], X[2], (X[3],)) if lf[0] == "succ"):
                     H = P.fns[X[1]]
                     hv = TermCx(P, H, {n + 1: a for n, a in enumerate(X[2])}, 1)
@@ -210,9 +207,9 @@ def run(ctx):
             for (e, fa) in v.facts:
                 if fa[0] == "succ" and not fa[2] and share_check(item, arg(1), arg(2))(peel_result(fa[1])) and fa[1][0] != "map_err":
                     oks_ = [e2 for (e2, f2) in v.facts if e2[0] == e[0] and f2[0] == "succ" and f2[2]]
-                    reach_ok = set().union(*[p3.reach(e2[1], stop=frozenset({e[0]})) - {e[0]} for e2 in oks_]) if oks_ else set()
-                    region = p3.reach(e[1]) - reach_ok
-                    alts = [v.cx.operand(rv["ops"][0]) for (b, k, rv) in ret_writes(p3) if k == "err" and b in region]
+                    reach_ok = set().union(*[p3e.reach(e2[1], stop=frozenset({e[0]})) - {e[0]} for e2 in oks_]) if oks_ else set()
+                    region = p3e.reach(e[1]) - reach_ok
+                    alts = [v.cx.operand(rv["ops"][0]) for (b, k, rv) in ret_writes(p3e) if k == "err" and b in region]
                     if alts:
                         cands.append((tuple(alts), lambda x: x[0] == "errval" or mentions(x, lambda s: s[0] == "errval")))
             good = False
